@@ -182,9 +182,27 @@ def _in_library(tb) -> bool:
     return False
 
 
+class CaseTimeout(BaseException):
+    """Raised inside a case by the per-case wall-clock limit (VERIF_CASE_TIMEOUT seconds, default 1200): a case normally takes
+    seconds. If library code is on the stack the case is reported as a violation (the library neither answered nor raised,
+    e.g. an endless retry loop); otherwise it is a harness error."""
+
+
+def _case_limit():
+    try:
+        return float(os.environ.get("VERIF_CASE_TIMEOUT", "1200"))
+    except ValueError:
+        return 1200.0
+
+
 class LibraryOutputError(Exception):
     """Raised by harness code when what the library produced (an output file, a record table) is missing or cannot be
     interpreted in the documented layout; reported as a violation, not as a harness error."""
+
+
+def _any_library_frame(tb) -> bool:
+    lib = os.path.join(os.path.realpath(REPO), "tdgl") + os.sep
+    return any(os.path.realpath(fr.filename).startswith(lib) for fr in traceback.extract_tb(tb))
 
 
 def _lib_frame(frames):
@@ -208,15 +226,34 @@ def run_one(cid, case):
     tempfile.tempdir = private_tmp  # the library's TemporaryDirectory() lands here: observable, race-free
     os.chdir(sandbox)
     t0 = time.time()
+    import signal
+    import threading
+
+    use_alarm = threading.current_thread() is threading.main_thread() and _case_limit() > 0
+
+    def _on_alarm(signum, frame):
+        raise CaseTimeout(f"case exceeded {_case_limit():.0f} s")
+
+    if use_alarm:
+        old_handler = signal.signal(signal.SIGALRM, _on_alarm)
+        signal.setitimer(signal.ITIMER_REAL, _case_limit())
     try:
-        res = chk.run_case(case)
+        try:
+            res = chk.run_case(case)
+        finally:
+            if use_alarm:
+                signal.setitimer(signal.ITIMER_REAL, 0)
+                signal.signal(signal.SIGALRM, old_handler)
         packed = res.pack()
     except BaseException as exc:  # noqa: BLE001
         tb = exc.__traceback__
         text = "".join(traceback.format_exception(type(exc), exc, tb))[-3000:]
         r = CaseResult()
         r.key = case_key(case)
-        if isinstance(exc, LibraryOutputError):
+        if isinstance(exc, CaseTimeout) and _any_library_frame(tb):
+            r.violate("no-answer-within-time-limit", where=_lib_frame(traceback.extract_tb(tb)), detail={"limit_s": _case_limit(), "traceback": text})
+            packed = r.pack()
+        elif isinstance(exc, LibraryOutputError):
             r.violate("library-output-malformed", what=str(exc.args[0]) if exc.args else "", detail={"traceback": text})
             packed = r.pack()
         elif _in_library(tb) and not isinstance(exc, (KeyboardInterrupt, SystemExit)):
@@ -310,6 +347,7 @@ class Runner:
         if jobs <= 1 or os.environ.get("VERIF_INPROC"):
             _worker_init(REPO, numba_threads)
             return [run_one(*a) for a in args]
+        os.environ.setdefault("VERIF_CASE_TIMEOUT", "1200" if self.tier == "quick" else "3600")  # inherited by the spawned workers
         ctx = mp.get_context("spawn")
         chunk = 1 if len(cases) < 4000 else max(1, min(8, len(cases) // (jobs * 4)))
         with ctx.Pool(jobs, initializer=_worker_init, initargs=(REPO, numba_threads)) as pool:
